@@ -36,9 +36,30 @@ def make_script(rng):
     return defs, ops
 
 
+def expected_config(defs, bts=5700, bb=6700):
+    """the wiring fake_trx.Application documents: BTS manages its children, the MS does not, additional parents do (default);
+    a transceiver owns a clock link iff it is a parent; children hang under the parent with the same base port"""
+    base = [bts, bb] + [p for (_, p, _) in defs]
+    idxs = [0, 0] + [i for (_, _, i) in defs]
+    out = []
+    for k in range(len(base)):
+        kids = [j for j in range(len(base)) if idxs[k] == 0 and idxs[j] > 0 and base[j] == base[k]]
+        out.append(dict(idx=idxs[k], mgt=(k != 1), clock=(idxs[k] == 0), children=kids))
+    return out
+
+
 def oracle(ctx, script, real):
     defs, ops = script
     cfg, obs, events = real
+    want_cfg = expected_config(defs)
+    got_cfg = [dict(idx=c["idx"], mgt=bool(c["mgt"]), clock=bool(c["clock"]), children=sorted(c["children"])) for c in cfg]
+    for k, (g, w) in enumerate(zip(got_cfg, want_cfg)):
+        if g["idx"] == 0 and g != w or g["idx"] != w["idx"] or g["clock"] != w["clock"]:
+            ctx.oracle_fail("the application wires a transceiver differently from the documented plan (who manages children, who owns a clock link, who is whose child)",
+                            dict(trx=k, trx_defs=defs), key="c12-wiring:" + ",".join(f for f in w if g[f] != w[f]), expected=w, observed=g)
+            break
+    if len(got_cfg) != len(want_cfg):
+        ctx.oracle_fail("number of transceivers differs from the --trx definitions", dict(trx_defs=defs), key="c12-wiring:count", expected=len(want_cfg), observed=len(got_cfg))
     n = len(cfg)
     ref = [dict(run=False, rx=False, tx=False, fh=False, q=0) for _ in range(n)]
     links, gen_running = [], False
